@@ -36,12 +36,12 @@ func (n nsByName) GetNamespace(ctx context.Context, name string) (*corev1.Namesp
 }
 
 type reviewCase struct {
-	uid      string
-	ns       string
-	pod      *corev1.Pod
-	op       admissionv1.Operation
-	old      *corev1.Pod
-	user     string
+	uid         string
+	ns          string
+	pod         *corev1.Pod
+	op          admissionv1.Operation
+	old         *corev1.Pod
+	user        string
 	wantAllowed bool
 }
 
@@ -140,12 +140,12 @@ func runC16(c *Ctx) {
 		cases = append(cases, cs)
 	}
 	type result struct {
-		rc     *reviewCase
-		status int
-		uid    string
+		rc      *reviewCase
+		status  int
+		uid     string
 		allowed bool
 		hasResp bool
-		err    string
+		err     string
 	}
 	results := make([][]result, clients)
 	var wg sync.WaitGroup
@@ -220,7 +220,7 @@ func runC16(c *Ctx) {
 		nilBody     bool
 		streamed    bool // sent without a Content-Length (chunked), as a client that streams the body does
 		// model inputs
-		size                                   int
+		size                                 int
 		decodes, v1review, hasRequest, empty bool
 	}
 	mk := func(name, ctype string, body []byte, decodes, v1review, hasRequest bool) mal {
@@ -248,7 +248,9 @@ func runC16(c *Ctx) {
 	}
 	// an otherwise perfectly good review, padded with trailing white space to the limit and beyond: only its size is wrong.
 	// Sent once with a Content-Length and once streamed (chunked, length unknown to the server when the handler starts).
-	padded := func(n int) []byte { return append(append([]byte{}, good...), bytes.Repeat([]byte(" "), n-len(good))...) }
+	padded := func(n int) []byte {
+		return append(append([]byte{}, good...), bytes.Repeat([]byte(" "), n-len(good))...)
+	}
 	for _, sz := range []struct {
 		name string
 		n    int
